@@ -18,7 +18,7 @@ var c17Paths = []string{"a.txt", "b.txt", "sub/c.txt", "a b.txt", "-dash.txt", "
 var c17Contents = []string{"one", "two words", "", "it's", `q"q`, "$HOME", "*", "a  b", " lead", "trail ", "-n", "back\\slash", "semi;colon", "line1\nline2", "tab\tsep", "`id`", "$(id)", "x > y", "100%", "#hash", "a&b", "(paren)", "~", "!bang"}
 
 type c17Op struct {
-	kind    string // W A R E
+	kind    string // W A R E  RR (two reads in one statement: content holds the second path)
 	path    string
 	content string
 }
@@ -31,6 +31,8 @@ func (o c17Op) String() string {
 		return fmt.Sprintf("append(%q,%q)", o.path, o.content)
 	case "R":
 		return fmt.Sprintf("read(%q)", o.path)
+	case "RR":
+		return fmt.Sprintf("read(%q)+read(%q)", o.path, o.content)
 	}
 	return fmt.Sprintf("exists(%q)", o.path)
 }
@@ -46,11 +48,28 @@ func c17Stmts(ops []c17Op) []Stmt {
 			st = append(st, Write{Path: StrLit{V: o.path}, Data: StrLit{V: o.content}, Append: BoolLit{true}})
 		case "R":
 			st = append(st, Print{Args: []Expr{tag, StrLit{V: "S"}, ReadE{Path: StrLit{V: o.path}}, StrLit{V: "E"}}})
+		case "RR":
+			st = append(st, Print{Args: []Expr{tag, ReadE{Path: StrLit{V: o.path}}, ReadE{Path: StrLit{V: o.content}}, Binary{Op: "==", L: ReadE{Path: StrLit{V: o.path}}, R: ReadE{Path: StrLit{V: o.content}}}, Binary{Op: "+", L: ReadE{Path: StrLit{V: o.content}}, R: ReadE{Path: StrLit{V: o.path}}}, ExistsE{Path: StrLit{V: o.path}}, ExistsE{Path: StrLit{V: o.content}}}})
 		case "E":
 			st = append(st, Print{Args: []Expr{tag, ExistsE{Path: StrLit{V: o.path}}}})
 		}
 	}
 	return st
+}
+
+// c17MixedProg: writes go through a wrapper function (a bare call statement), reads and exists
+// are direct builtins of the same block.
+func c17MixedProg(ops []c17Op) *Prog {
+	st := []Stmt{FuncDef{Name: "store", Params: []Param{{"p", TStr}, {"c", TStr}, {"a", TBool}}, Body: []Stmt{Write{Path: Var{"p"}, Data: Var{"c"}, Append: Var{"a"}}}}}
+	var body []Stmt
+	for _, o := range ops {
+		if o.kind == "W" || o.kind == "A" {
+			body = append(body, ExprStmt{X: Call{Fn: "store", Args: []Expr{StrLit{V: o.path}, StrLit{V: o.content}, BoolLit{o.kind == "A"}}}})
+		} else {
+			body = append(body, c17Stmts([]c17Op{o})...)
+		}
+	}
+	return &Prog{Stmts: append(append(st, body...), Print{Args: []Expr{StrLit{V: "done"}}})}
 }
 
 // c17WrapperProg routes every operation through one wrapper function per builtin, so the same
@@ -70,6 +89,8 @@ func c17WrapperProg(ops []c17Op) *Prog {
 			st = append(st, Print{Args: []Expr{tag, StrLit{V: "S"}, Call{Fn: "rd", Args: []Expr{StrLit{V: o.path}}}, StrLit{V: "E"}}})
 		case "E":
 			st = append(st, Print{Args: []Expr{tag, Call{Fn: "ex", Args: []Expr{StrLit{V: o.path}}}}})
+		case "RR":
+			st = append(st, Print{Args: []Expr{tag, Call{Fn: "rd", Args: []Expr{StrLit{V: o.path}}}, Call{Fn: "rd", Args: []Expr{StrLit{V: o.content}}}, Call{Fn: "ex", Args: []Expr{StrLit{V: o.content}}}, Call{Fn: "ex", Args: []Expr{StrLit{V: o.path}}}}})
 		}
 	}
 	return &Prog{Stmts: append(st, Print{Args: []Expr{StrLit{V: "done"}}})}
@@ -96,6 +117,8 @@ func c17Prog(ops []c17Op, inFunc bool, viaVars bool) *Prog {
 				st = append(st, Print{Args: []Expr{tag, StrLit{V: "S"}, ReadE{Path: Var{pv}}, StrLit{V: "E"}}})
 			case "E":
 				st = append(st, Print{Args: []Expr{tag, ExistsE{Path: Var{pv}}}})
+			case "RR":
+				st = append(st, c17Stmts([]c17Op{o})...)
 			}
 		}
 		body = st
@@ -261,6 +284,13 @@ func C17() int {
 		}
 		alphabet = append(alphabet, c17Op{"R", p, ""}, c17Op{"E", p, ""})
 	}
+	for _, p := range goodP {
+		for _, q := range goodP {
+			if p != q {
+				alphabet = append(alphabet, c17Op{"RR", p, q})
+			}
+		}
+	}
 	kAll, kBFS := 2, 3
 	if r.Thorough() {
 		kAll, kBFS = 3, 5
@@ -287,6 +317,12 @@ func C17() int {
 		case "R":
 			if _, ok := fs[o.path]; !ok {
 				return nil, false // read of a missing file is undefined
+			}
+		case "RR":
+			_, ok1 := fs[o.path]
+			_, ok2 := fs[o.content]
+			if !ok1 || !ok2 {
+				return nil, false
 			}
 		}
 		return n, true
@@ -368,6 +404,7 @@ func C17() int {
 		name := "history " + strings.Join(parts, " ; ")
 		judge(name, name, c17Prog(h, i%2 == 1, i%3 == 2))
 		judge(name+" [via wrapper functions]", name+" [via wrapper functions]", c17WrapperProg(h))
+		judge(name+" [writes via a function, reads direct]", name+" [writes via a function, reads direct]", c17MixedProg(h))
 		if i%701 == 0 {
 			r.Sample(map[string]string{"kind": "history", "ops": strings.Join(parts, " ; "), "in_function": fmt.Sprint(i%2 == 1), "via_variables": fmt.Sprint(i%3 == 2)})
 		}
